@@ -66,13 +66,20 @@ type brainGRPC struct {
 }
 
 func newGRPCNode(es *etcd.RPCServer, bs *brain.Server, m metrics.Metrics) (*grpcNode, error) {
+	return newGRPCNodeFor(func(gs *grpc.Server) {
+		es.Register(gs)
+		bs.Register(gs)
+	}, m)
+}
+
+// newGRPCNodeFor serves whatever register puts on the server (e.g. server.Server.RegisterClient of a full node).
+func newGRPCNodeFor(register func(gs *grpc.Server), m metrics.Metrics) (*grpcNode, error) {
 	lis, err := net.Listen("tcp", "127.0.0.1:0")
 	if err != nil {
 		return nil, err
 	}
 	gs := grpc.NewServer(m.GetGrpcServerOption()...)
-	es.Register(gs)
-	bs.Register(gs)
+	register(gs)
 	go gs.Serve(lis)
 	conn, err := grpc.Dial(lis.Addr().String(), grpc.WithInsecure(), grpc.WithDefaultCallOptions(grpc.MaxCallRecvMsgSize(64<<20), grpc.MaxCallSendMsgSize(64<<20)))
 	if err != nil {
